@@ -148,6 +148,35 @@ impl<'tcx> Ctx<'tcx> {
     }
 }
 
+/// Instances seen so far, numbered in discovery order, plus the instance-level call edges
+/// (caller id -> callee id; closures and fn items passed as values count as edges).
+#[derive(Default)]
+struct Seen<'tcx> {
+    ids: HashMap<Instance<'tcx>, usize>,
+    list: Vec<Instance<'tcx>>,
+    edges: BTreeSet<(usize, usize)>,
+    cur: Option<usize>,
+}
+
+impl<'tcx> Seen<'tcx> {
+    /// true if the instance is new; always records the edge from the instance being walked
+    fn insert(&mut self, i: Instance<'tcx>) -> bool {
+        let (id, new) = match self.ids.get(&i) {
+            Some(id) => (*id, false),
+            None => {
+                let id = self.list.len();
+                self.ids.insert(i, id);
+                self.list.push(i);
+                (id, true)
+            }
+        };
+        if let Some(c) = self.cur {
+            self.edges.insert((c, id));
+        }
+        new
+    }
+}
+
 #[derive(Default)]
 struct FnFacts {
     path: String,
@@ -172,7 +201,7 @@ pub fn walk<'tcx>(tcx: TyCtxt<'tcx>) -> J {
     let ws: HashSet<&str> = WORKSPACE.iter().copied().collect();
     let env = TypingEnv::fully_monomorphized();
     let mut queue: VecDeque<(Instance<'tcx>, String)> = VecDeque::new();
-    let mut seen: HashSet<Instance<'tcx>> = HashSet::new();
+    let mut seen: Seen<'tcx> = Seen::default();
     let mut entries: Vec<J> = Vec::new();
     for def in tcx.hir_body_owners() {
         let did = def.to_def_id();
@@ -185,6 +214,7 @@ pub fn walk<'tcx>(tcx: TyCtxt<'tcx>) -> J {
             if seen.insert(inst) {
                 queue.push_back((inst, name.clone()));
             }
+            seen.cur = None;
             entries.push(jo! {"name": J::S(name), "key": J::S(def_key(tcx, did))});
         }
     }
@@ -198,6 +228,7 @@ pub fn walk<'tcx>(tcx: TyCtxt<'tcx>) -> J {
     let mut n_instances = 0usize;
 
     while let Some((inst, entry)) = queue.pop_front() {
+        seen.cur = seen.ids.get(&inst).copied();
         let did = inst.def_id();
         let krate = tcx.crate_name(did.krate).to_string();
         let key = def_key(tcx, did);
@@ -490,7 +521,31 @@ pub fn walk<'tcx>(tcx: TyCtxt<'tcx>) -> J {
         .into_values()
         .map(|c| jo! {"key": J::S(c.key), "path": J::S(c.path), "crate": J::S(c.krate), "kind": J::s(c.kind)})
         .collect();
+    // instance-level graph restricted to workspace instances
+    let mut nodes: Vec<J> = Vec::new();
+    for (i, inst) in seen.list.iter().enumerate() {
+        let did = inst.def_id();
+        let krate = tcx.crate_name(did.krate).to_string();
+        if ws.contains(krate.as_str()) {
+            nodes.push(jo! {"i": J::I(i as i128), "key": J::S(def_key(tcx, did)), "full": J::S(any_str(*inst))});
+        }
+    }
+    let ws_ids: HashSet<usize> = seen
+        .list
+        .iter()
+        .enumerate()
+        .filter(|(_, inst)| ws.contains(tcx.crate_name(inst.def_id().krate).as_str()))
+        .map(|(i, _)| i)
+        .collect();
+    let edges: Vec<J> = seen
+        .edges
+        .iter()
+        .filter(|(a, b)| ws_ids.contains(a) && ws_ids.contains(b))
+        .map(|(a, b)| J::A(vec![J::I(*a as i128), J::I(*b as i128)]))
+        .collect();
     jo! {
+        "inst_nodes": J::A(nodes),
+        "inst_edges": J::A(edges),
         "entries": J::A(entries),
         "n_instances": J::I(n_instances as i128),
         "fns": J::A(fns_json),
@@ -536,7 +591,7 @@ fn visit_rvalue_operands<'tcx>(rv: &Rvalue<'tcx>, f: &mut impl FnMut(&Operand<'t
 fn enqueue_fn_const<'tcx>(
     cx: &Ctx<'tcx>,
     op: &Operand<'tcx>,
-    seen: &mut HashSet<Instance<'tcx>>,
+    seen: &mut Seen<'tcx>,
     queue: &mut VecDeque<(Instance<'tcx>, String)>,
     entry: &str,
 ) -> Option<String> {
